@@ -256,8 +256,13 @@ def r45(ctx):
   wstack = U(un[0].targets[0].elts[0])
   loops = [n for n in pq.node.body if isinstance(n, ast.While)]
   body = loops[0].body if loops else None
+  if body is not None and not any(isinstance(c_, ast.Call) and call_attr(c_) == 'AsyncProcessRequest' for st_ in body for c_ in ast.walk(st_)):
+    # search-loop form (the loop only finds the live waiter, the hand-off follows it): the whole function is the unit; a path that
+    # never tested a waiter has none to answer
+    body = None
   n5 += check_request(ctx, sp, 'C01.R5', pq, wstack, why5, label='resumed waiter', body=body,
-                      allow_drop=lambda facts: ('not%s.Any()' % wstack, True) in facts or ('%s.Any()' % wstack, False) in facts)
+                      allow_drop=lambda facts: ('not%s.Any()' % wstack, True) in facts or ('%s.Any()' % wstack, False) in facts or
+                      (body is None and not any('.Any()' in c_ for c_, _t in POS(facts))))
   cl = prog.func('scales/pool/watermark.py', 'WatermarkPoolSink.Close')
   comps = [n for n in ast.walk(cl.node) if isinstance(n, (ast.ListComp, ast.For)) and '_waiters' in U(n.generators[0].iter if isinstance(n, ast.ListComp) else n.iter)]
   ok = False
